@@ -28,7 +28,8 @@ def jobs(tier, seed):
         J.append(dict(name="history:published-after-explicit:sel%d" % sel, kind="wiring", mode="published-after-explicit", sel=sel, timeout=600, cost=60))
         J.append(dict(name="history:second-recipient:sel%d" % sel, kind="wiring", mode="second-recipient", sel=sel, timeout=600, cost=60))
     J.append(dict(name="wiring:decryptor-as-encryptor:sel1", kind="wiring", mode="decryptor", sel=1, timeout=600, cost=50))
-    J.append(dict(name="wiring:wrong-selector-encryptor-ignored", kind="wiring", mode="mismatch", sel=3, timeout=600, cost=50))
+    for sel in range(4):
+        J.append(dict(name="wiring:wrong-selector-encryptor-ignored:sel%d" % sel, kind="wiring", mode="mismatch", sel=sel, timeout=600, cost=50))
     J.append(dict(name="refuse:marker", kind="marker", timeout=600, cost=30))
     J.append(dict(name="dh-secret:fixed-width-serialisation", kind="dhbytes", timeout=900, cost=60))
     J.append(dict(name="wiring:twin", kind="wiring", mode="explicit", sel=0, twin=True, expect="violated", timeout=300))
